@@ -39,6 +39,22 @@ type delivered struct {
 }
 
 // embed gives the concrete pod subnet, gateway and the single pool address of the i-th pool of a vector.
+// embedNested places the pool inside the /24 (or /8) of pool 1: a smaller subnet carved out of a bigger one.
+func embedNested(p dpool) (subnet, gateway, addr string) {
+	switch p.Prefix {
+	case 30:
+		subnet = "11.0.0.40/30"
+		if p.Gw == "first" {
+			gateway, addr = "11.0.0.41", "11.0.0.42"
+		} else {
+			gateway, addr = "11.0.0.42", "11.0.0.41"
+		}
+	default:
+		subnet, gateway, addr = "11.0.0.40/32", "11.0.0.40", "11.0.0.40"
+	}
+	return
+}
+
 func embed(i int, p dpool) (subnet, gateway, addr string) {
 	o := 10 + i
 	switch p.Prefix {
@@ -96,6 +112,9 @@ func runC13(vecPath, logPath string, client *k8sfake.Clientset, send func(cmd, c
 		var want []delivered
 		for i, p := range v.Pools {
 			sn, gw, addr := embed(i+1, p)
+			if i == 1 && v.Pools[0].Prefix <= 24 && p.Prefix >= 30 && vi%2 == 0 {
+				sn, gw, addr = embedNested(p) // nested inside pool 1's subnet (valid: disjoint ranges)
+			}
 			cfg = append(cfg, env.PoolConf{ID: fmt.Sprintf("p%d", i+1), Subnets: []string{"s1"}, IPs: []string{}, RawSubnet: sn, RawGateway: gw, RawVlan: p.Vlan, RawIPs: []string{addr}})
 			raw = append(raw, []string{addr})
 			want = append(want, delivered{Addr: addr, Prefix: p.Prefix, Gateway: gw, Vlan: p.Vlan})
@@ -107,12 +126,43 @@ func runC13(vecPath, logPath string, client *k8sfake.Clientset, send func(cmd, c
 			continue
 		}
 		spec := env.PodSpec{Name: "m-0", Kind: "sts", App: "m", RawRanges: raw}
-		pv, _ := w.CreatePod(spec)
-		for {
-			if _, ok := w.DeliverPodEvent(); !ok {
-				break
+		drainEvents := func() {
+			for {
+				e, ok := w.DeliverPodEvent()
+				if !ok {
+					break
+				}
+				if e.Type == "del" {
+					_ = w.Plugin.DeletePod(e.NewObj())
+				}
+			}
+			w.DrainWork()
+			for len(w.Work) > 0 {
+				wk := w.Work[0]
+				w.Work = w.Work[1:]
+				_ = w.Plugin.VerifUnbind(wk.PodObj())
 			}
 		}
+		if len(raw) >= 2 {
+			// an earlier incarnation (release policy never) held only the LAST range; the pod is re-created asking for
+			// all ranges, after a restart of galaxy-ipam: partially pre-owned request with the unowned ranges first
+			first := env.PodSpec{Name: "m-0", Kind: "sts", App: "m", Policy: 2, RawRanges: raw[len(raw)-1:]}
+			spec.Policy = 2
+			pv0, _ := w.CreatePod(first)
+			drainEvents()
+			if nodes, _, ferr := w.Plugin.Filter(w.TruthPod("m-0"), w.NodeObjs([]string{"n1"})); ferr == nil && len(nodes) == 1 {
+				_ = w.Plugin.Bind(&schedulerapi.ExtenderBindingArgs{PodName: "m-0", PodNamespace: env.NS, PodUID: types.UID(pv0.UID), Node: "n1"})
+			}
+			w.DeletePod("m-0")
+			drainEvents()
+			w.Crash()
+			if err := w.Restart(); err != nil {
+				findings = append(findings, finding{Check: "restart", Scenario: v, Detail: err.Error()})
+				continue
+			}
+		}
+		pv, _ := w.CreatePod(spec)
+		drainEvents()
 		pod := w.TruthPod("m-0")
 		nodes, _, ferr := w.Plugin.Filter(pod, w.NodeObjs([]string{"n1"}))
 		if ferr != nil || len(nodes) != 1 {
